@@ -503,6 +503,40 @@ def rule_g_header_segment_order(ctx, fn):
     return n
 
 
+GETTERS = ("get_sinogram", "get_viewgram", "get_segment_by_sinogram", "get_segment_by_view", "get_bin_value", "get_related_viewgrams")
+
+
+def rule_i_scaled_once(ctx, pdfs):
+    """Values in the file are stored divided by scale_factor.  Every read path applies the factor exactly once: data that came
+    from read_data is multiplied by scale_factor before it is returned (on every path, and not twice), and data obtained from another
+    getter of the same object - which has already applied the factor - is not multiplied again."""
+    n = 0
+    seen = set()
+    for f in pdfs.functions:
+        if f.cls != "stir::ProjDataFromStream" or f.body is None or not f.cfg_raw or f.short not in GETTERS or (f.file, f.line) in seen:
+            continue
+        seen.add((f.file, f.line))
+        cfg = CFG(f)
+        R = [c for c in f.calls() if c.callee == "stir::read_data" and c.i in cfg.pos]
+        M = [m for m in f.walk() if m.k in ("CompoundAssignOperator", "CXXOperatorCallExpr") and m.op == "*=" and len(m.c) == 2 and key(m.c[1].strip()) == "this.scale_factor" and m.i in cfg.pos]
+        Dg = [c for c in f.calls() if c.k == "CXXMemberCallExpr" and c.c and c.c[0].k == "CXXThisExpr" and (c.callee or "").split("::")[-1] in GETTERS and c.i in cfg.pos]
+        if not R and not Dg:
+            continue
+        fid = f.qn + "(" + f.sig[:40] + ")"
+        mids = {m.i for m in M}
+        if R:
+            w = cfg.must_pass_before_exit(R, lambda x: x.i in mids)
+            twice = any(cfg.paths_avoiding([cfg.pos[m.i]], lambda x: False, target_pred=lambda x, m=m: x.i in mids and x.i != m.i, to_exit=False) is not None for m in M)
+            ok = w is None and not twice
+            ctx.ob("C02.i-scale-applied-once", fid, "raw-read-then-scaled", ok, R[0].where(), "data from read_data is multiplied by scale_factor exactly once before every normal return" if ok else ("a path returns data read from the stream without multiplying by scale_factor" if w is not None else "scale_factor can be applied twice"))
+            n += 1
+        if Dg:
+            again = [d for d in Dg if cfg.paths_avoiding([cfg.pos[d.i]], lambda x: False, target_pred=lambda x: x.i in mids, to_exit=False) is not None]
+            ctx.ob("C02.i-scale-applied-once", fid, "delegated-data-not-rescaled", not again, (again[0] if again else Dg[0]).where(), "data obtained from %s (already scaled) is not multiplied by scale_factor again" % sorted({(d.callee or "").split("::")[-1] for d in Dg}) if not again else "data obtained from %s already carries the scale factor and is multiplied by scale_factor again on a path" % (again[0].callee or "").split("::")[-1])
+            n += 1
+    return n
+
+
 def run(ctx):
     ctx.explanation = (
         "Decides structural necessary conditions of C02 from the source: (a) all five bin coordinates are range-checked "
@@ -568,6 +602,8 @@ def run(ctx):
         used_helpers = [f for f in fl(helpers) if f.qn in called]
         header_keys_agree(ctx, fl(ifile) + used_helpers, fl(hdr) + fl(hdrspect), fl(kwu), rule="C02.h-header-keys-agree", writers=("write_basic_interfile_PDFS_header", "write_interfile_"))
         ctx.require_count("C02.h-header-keys-agree", 25)
+    rule_i_scaled_once(ctx, pdfs)
+    ctx.require_count("C02.i-scale-applied-once", 6)
     ctx.require_count("C02.g-header-segment-order", 12)
     ctx.require_count("C02.a-bounds", 20)
     ctx.require_count("C02.b-layout", 20)
